@@ -98,6 +98,17 @@ def step(cname, maxlen, jumps):
                 same = list(map(tuple, a[0])) == list(map(tuple, b[0])) and len(a[1]) == len(b[1])
                 ob('transitions-equal-fresh', same and all(mc.lin_eq(x, y, sym) is True or mc.lin_eq(x, y, sym) for x, y in zip(a[1], b[1])) if not sym
                    else (same and core.And(*[x == y for x, y in zip(a[1], b[1])])))
+            # start() from an ARBITRARY reachable state (not only on a new sampler) produces the definition again
+            MC.start(mocc.copy())
+            ob('restart-is-definition', state_is(MC, mocc))
+            ob('restart-energy', mc.lin_eq(MC.E(), E0, sym))
+            if jumps:
+                fresh0 = mc.make_sampler(cfg, V, socc, jumps=jumps, ts=jumps)
+                fresh0.start(mocc.copy())
+                a, b = MC.transitions(), fresh0.transitions()
+                same = list(map(tuple, a[0])) == list(map(tuple, b[0])) and len(a[1]) == len(b[1])
+                ob('restart-transitions', (same and core.And(*[x == y for x, y in zip(a[1], b[1])])) if sym else
+                   (same and all(bool(mc.lin_eq(x, y, sym)) for x, y in zip(a[1], b[1]))))
             if sym:
                 obs.append(('twin:%s:energy-shifted' % name, mc.lin_eq(E1, fresh.E() + 1e-6, True)))
         return obs
